@@ -268,6 +268,37 @@ theorem bindL_paths : ∀ (ps : List SPat) (ws : List Val) (root : Val) (π : Li
           bindL_paths ps ws root π (k + 1) bs' c vs hd' hs hps]
 end
 
+/-- looking a parameter up by name in a leaf that contains it and has distinct names finds it -/
+theorem find_assign {leaf : List Assign} (hd : (leaf.map (·.1)).Nodup) {p : Assign} (hp : p ∈ leaf) :
+    leaf.find? (fun a => a.1 == p.1) = some p := by
+  induction leaf with
+  | nil => cases hp
+  | cons a leaf ih =>
+    simp only [List.map_cons, List.nodup_cons] at hd
+    simp only [List.mem_cons] at hp
+    rcases hp with e | hp
+    · subst e; simp [List.find?_cons]
+    · have hne : ¬ a.1 = p.1 := by
+        intro e
+        apply hd.1
+        rw [e]
+        exact List.mem_map.mpr ⟨p, hp, rfl⟩
+      simp [List.find?_cons, hne, ih hd.2 hp]
+
+theorem reorderArgs_eq {params leaf : List Assign} (hd : (leaf.map (·.1)).Nodup)
+    (hsub : ∀ p ∈ params, p ∈ leaf) : reorderArgs params leaf = params := by
+  simp only [reorderArgs]
+  conv => rhs; rw [← List.map_id params]
+  apply List.map_congr_left
+  intro p hp
+  simp [find_assign hd (hsub p hp)]
+
+theorem zip_map_self {α β γ : Type} (l : List α) (f : α → β) (g : α → γ) :
+    (l.map f).zip (l.map g) = l.map (fun a => (f a, g a)) := by
+  induction l with
+  | nil => rfl
+  | cons a l ih => simp [ih]
+
 theorem simplifyL_eq_map (ps : List SPat) : simplifyL ps = ps.map simplify := by
   induction ps with
   | nil => simp [simplifyL]
